@@ -11,6 +11,11 @@ VERIF = os.path.dirname(os.path.dirname(os.path.abspath(__file__)))
 KNOWN_FINDINGS = os.path.join(VERIF, "known_findings.json")
 
 
+def _path_stats():
+    from . import paths
+    return paths.STATS
+
+
 class Finding(object):
     def __init__(self, prop, rule, module, function, construct, message, path=None, loc=None):
         self.prop = prop
@@ -187,6 +192,8 @@ def finish(ctx, rules_doc, level_explanation, assumptions, t0, evidence_path=Non
         "source_digest": ctx.tree.digest,
         "files_parsed": ctx.tree.n_files,
         "root": ctx.tree.root,
+        "functions_analysed": sorted({"%s:%s" % (m, f) for r, m, f, d, nt in ctx.obligations}),
+        "paths_enumerated": dict(_path_stats()),
         "known_findings_matched": [f.as_dict() for f, _ in old],
         "unknowns": ["%s: %s" % u for u in ctx.unknowns],
         "notes": ctx.notes,
